@@ -21,7 +21,7 @@ ANCHORED = ["ExponentiatedGradient.fit", "GridSearch.fit", "ThresholdOptimizer.f
 RULE = ("history enumeration: every operation sequence of length <= 2 plus every length-3 sequence ending in a fit (quick) / every sequence of length <= 4 (thorough) over {fit(D1), fit(D2), predict, pickle "
         "round trip, clone} that begins with a fit or a clone, for each estimator kit (ThresholdOptimizer prefit and not, "
         "ExponentiatedGradient with explicit nu and with nu=None, GridSearch, CorrelationRemover, AdversarialFairnessClassifier and "
-        "Regressor with warm_start=False, fixed random_state and list-spec models) and each data variant (D2 of another size; D2 with "
+        "Regressor with warm_start=False, fixed random_state and list-spec models, also with a Dropout layer; stateful user-supplied layers such as BatchNorm are not used because the documentation says pre-initialised modules are never discarded) and each data variant (D2 of another size; D2 with "
         "another number of columns / groups). After every operation the monitor records the return value of fit, "
         "get_params(deep=False) (primitives by value, objects by identity) and a model fingerprint (_pmf_predict / predict with a "
         "fixed seed / transform on a probe set, fitted multipliers, torch parameters); the history is compared with fresh "
@@ -34,7 +34,7 @@ ASSUMPTIONS = ["deterministic base learners and fixed random_state, so that equa
 EXHAUSTIVE = {"quick": ["all operation sequences of length <= 2 and all sequences of length 3 that end in a fit, per kit and data variant"],
               "thorough": ["all operation sequences of length <= 4 per kit and data variant"]}
 OPS = ["fit1", "fit2", "predict", "pickle", "clone"]
-KITS = ["to_prefit", "to_fit", "eg_nu", "eg_nu_none", "grid", "corr", "adv_clf", "adv_reg"]
+KITS = ["to_prefit", "to_fit", "eg_nu", "eg_nu_none", "grid", "corr", "adv_clf", "adv_reg", "adv_clf_dropout"]
 VARIANTS = ["other_size", "other_width"]
 
 
@@ -107,6 +107,16 @@ def make(kit):
     if kit == "adv_clf":
         return AdversarialFairnessClassifier(backend="torch", predictor_model=[4, "relu"], adversary_model=[3, "relu"], learning_rate=0.05,
                                              epochs=2, batch_size=8, shuffle=False, random_state=11, predictor_optimizer="Adam", adversary_optimizer="SGD")
+    if kit == "adv_clf_dropout":
+        import torch
+
+        return AdversarialFairnessClassifier(backend="torch", predictor_model=[6, torch.nn.Dropout(0.4), "relu"], adversary_model=[3, "relu"], learning_rate=0.05,
+                                             epochs=2, batch_size=8, shuffle=False, random_state=3, predictor_optimizer="SGD", adversary_optimizer="SGD")
+    if kit == "adv_reg_batchnorm":
+        import torch
+
+        return AdversarialFairnessRegressor(backend="torch", predictor_model=[4, torch.nn.BatchNorm1d(4), "relu"], adversary_model=[2], learning_rate=0.05,
+                                            epochs=2, batch_size=9, shuffle=False, random_state=5)
     if kit == "adv_reg":
         return AdversarialFairnessRegressor(backend="torch", predictor_model=[3, "relu"], adversary_model=[2], learning_rate=0.05, epochs=2, batch_size=-1,
                                             shuffle=True, random_state=5)
@@ -116,7 +126,7 @@ def make(kit):
 def do_fit(kit, est, D):
     if kit == "corr":
         return est.fit(D["X"])
-    if kit == "adv_reg":
+    if kit.startswith("adv_reg"):
         return est.fit(D["X"], D["yreg"], sensitive_features=D["g"])
     return est.fit(D["X"], D["y"], sensitive_features=D["g"])
 
@@ -133,12 +143,12 @@ def fingerprint(kit, est, D):
                 "objectives": np.asarray(est.objectives_, float)}
     if kit == "corr":
         return {"transform": np.asarray(est.transform(P))}
-    fp = {"pred": np.asarray(est.predict(P)).astype(float) if kit == "adv_reg" else np.asarray([repr(v) for v in est.predict(P)]),
+    fp = {"pred": np.asarray(est.predict(P)).astype(float) if kit.startswith("adv_reg") else np.asarray([repr(v) for v in est.predict(P)]),
           "raw": np.asarray(est._raw_predict(P))}
     be = getattr(est, "backendEngine_", None)
     if be is not None and hasattr(be, "predictor_model"):
-        for i, p in enumerate(be.predictor_model.parameters()):
-            fp["param%d" % i] = p.detach().numpy().copy()
+        for name, t in be.predictor_model.state_dict().items():  # parameters and buffers (e.g. batch-norm running statistics)
+            fp["state:" + name] = t.detach().numpy().astype(float).copy().reshape(-1)
     return fp
 
 
